@@ -86,3 +86,12 @@ PART["C07"] = {
             "after the transition, and partials signed with previous-group shares (incl. leavers') sent to nodes whose vault has switched must not be answered with success. distinct = distinct case",
     "assumptions": ["the handler-level layer does not exercise the DKG itself (dkg and daemon engines do)"],
 }
+
+PART["C16"] = {
+    "runs": [{"name": "ticker", "pkg": P, "run": "^TestVF_C16_Ticker$", "timeout": "20m", "timeout_thorough": "60m"}],
+    "rule": "ticker clause: the real round ticker (internal/chain/beacon/ticker.go) on a fake clock, periods {1,2,3,5,7,30,60} s, genesis in the future / recent / far past and off the period grid, "
+            "clock moved by sub-period steps, exact periods, jumps of 2-5 periods and of 6-60 periods plus a fraction (paused process); every announced (round, time) pair must satisfy "
+            "round = (time-genesis)/period+1 by harness arithmetic, time <= clock, rounds never go back, ticker.CurrentRound() equals the reference after every step; "
+            "non-trivial = at least two ticks and one multi-period jump; distinct = distinct (period, genesis offset, step sequence)",
+    "assumptions": ["a tick that is dropped because the subscriber's one-slot channel is full is legal (the code documents it); only announced pairs are judged"],
+}
